@@ -23,7 +23,11 @@ EXPLANATION = (
     "compFilesLoop emitLink/emitInterp/emitRun only behind totErrors == 0; compIsMoreAfterSyntax/Include return non-false "
     "only past comsgErrorCount() == 0; in compFileFront the scope binder and the type inferencer are separated from every "
     "other phase call by an error test. S3: compFilesLoop cannot reach its end with totErrors > 0 without emitAllDone. "
-    "Not decided: whether the type checker finds every violation.")
+    "S4 (fold identity): wherever a loop accumulates conditions with v = ablogOr(.., v) or v = ablogAnd(.., v), the value v has when "
+    "the loop is entered is the neutral element of that operator (ablogFalse() / ablogTrue()). S5 (known-condition context): every "
+    "ablogAndPush(&ctx, &save, test, polarity) is followed by the matching ablogAndPop before the next push in the same function "
+    "(or, for the array idiom, popped by a later loop), and two pushes for the same test in one function have opposite polarity "
+    "(then-branch true, else-branch false). Not decided: whether the type checker finds every violation.")
 
 FROZEN = os.path.join(os.path.dirname(__file__), "frozen")
 COUNTING = {"comsgError", "comsgNError", "comsgVError", "comsgFatal", "comsgVFatal"}
@@ -263,8 +267,124 @@ def s3(rep, f):
         rep.ok("S3", "cleanup")
 
 
+FOLD_IDENTITY = {"ablogOr": "ablogFalse", "ablogAnd": "ablogTrue"}
+
+
+def s45_digest(f):
+    """S4 facts: accumulating folds over the condition logic; S5 facts: push/pop of the known-condition context."""
+    folds, pushes = [], []
+    for name, fn in f.funcs.items():
+        if "body" not in fn or not fn.get("file", "").endswith(f.unit):
+            continue
+        par = None
+        for lp in walk(fn["body"]):
+            if lp["k"] not in ("ForStmt", "WhileStmt", "DoStmt"):
+                continue
+            body = lp["c"][-1] if lp["k"] != "DoStmt" else lp["c"][0]
+            for x in walk(body):
+                if x["k"] == "BinaryOperator" and x["op"] == "=":
+                    lhs, rhs = strip(x["c"][0]), strip(x["c"][1])
+                    if lhs is None or rhs is None or lhs["k"] != "DeclRefExpr" or rhs["k"] != "CallExpr":
+                        continue
+                    op = rhs.get("callee")
+                    if op not in FOLD_IDENTITY:
+                        continue
+                    if not any(strip(a) is not None and strip(a).get("did") == lhs.get("did") for a in rhs["c"][1:]):
+                        continue
+                    # the last assignment to the accumulator before the loop, in the statement list that contains the loop
+                    if par is None:
+                        par = common.parents(fn["body"])
+                    p = par.get(lp["id"])
+                    init = None
+                    if p is not None and p["k"] == "CompoundStmt":
+                        for st in p["c"]:
+                            if st is None:
+                                continue
+                            if st["id"] == lp["id"]:
+                                break
+                            for y in walk(st):
+                                if y["k"] == "BinaryOperator" and y["op"] == "=" and strip(y["c"][0]) is not None \
+                                        and strip(y["c"][0]).get("did") == lhs.get("did"):
+                                    r = strip(y["c"][1])
+                                    init = r.get("callee") if r is not None and r["k"] == "CallExpr" else common.render(r)
+                                for d in (y.get("decls", []) if y["k"] == "DeclStmt" else []):
+                                    if d.get("did") == lhs.get("did") and d.get("init") is not None:
+                                        r = strip(d["init"])
+                                        init = r.get("callee") if r is not None and r["k"] == "CallExpr" else common.render(r)
+                    folds.append((f.unit, name, lp["l"], lhs["n"], op, init))
+        # push / pop
+        for c in calls(fn["body"]):
+            if c.get("callee") in ("ablogAndPush", "ablogAndPop"):
+                a = [common.render(strip(z)) for z in c["c"][1:]]
+                pushes.append((f.unit, name, c["l"], c["callee"], a))
+    return {"folds": folds, "pushes": pushes}
+
+
+def s45(rep, dig):
+    nf = 0
+    for u in sorted(dig):
+        for unit, func, line, acc, op, init in dig[u]["s45"]["folds"]:
+            nf += 1
+            key = "fold-identity:%s:%s:%s" % (unit, func, acc)
+            if init == FOLD_IDENTITY[op]:
+                rep.ok("S4", key, sample={"site": "%s:%d" % (unit, line), "fold": "%s = %s(...,%s) starting from %s()" % (acc, op, acc, init)})
+            else:
+                rep.violation("S4", key, "%s:%d (%s)" % (unit, line, func),
+                              "%s accumulates with %s but starts from %s; the neutral element of %s is %s(): starting from the "
+                              "absorbing element makes the folded condition constant, so the check built on it accepts (or rejects) "
+                              "everything" % (acc, op, init, op, FOLD_IDENTITY[op]))
+    rep.floor("condition-logic folds", nf, 2)
+    npush = 0
+    for u in sorted(dig):
+        byfn = {}
+        for unit, func, line, cal, args in dig[u]["s45"]["pushes"]:
+            byfn.setdefault((unit, func), []).append((line, cal, args))
+        for (unit, func), evs in sorted(byfn.items()):
+            evs.sort()
+            open_ = None
+            last_by_test = {}
+            for line, cal, args in evs:
+                where = "%s:%d (%s)" % (unit, line, func)
+                if cal == "ablogAndPush" and len(args) >= 2 and "[" in args[1]:
+                    # saved contexts kept in an array and popped by a second loop (conjunction of n tests)
+                    npush += 1
+                    base = args[1].split("[")[0]
+                    key = "cond-context:%s:%s@array:%s" % (unit, func, base.strip("&( "))
+                    if any(c2 == "ablogAndPop" and len(a2) >= 2 and a2[1].split("[")[0] == base and l2 > line for l2, c2, a2 in evs):
+                        rep.ok("S5", key)
+                    else:
+                        rep.violation("S5", key, where, "contexts pushed into %s are never popped in this function" % base)
+                    continue
+                if cal == "ablogAndPop" and len(args) >= 2 and "[" in args[1]:
+                    continue
+                if cal == "ablogAndPush":
+                    npush += 1
+                    key = "cond-context:%s:%s@push%d" % (unit, func, npush)
+                    if open_ is not None:
+                        rep.violation("S5", key, where, "ablogAndPush while the context pushed at line %d has not been popped: the "
+                                      "condition of one branch stays in force for the code after it" % open_[0])
+                    open_ = (line, args)
+                    if len(args) >= 4:
+                        prev = last_by_test.get(args[2])
+                        if prev is not None and prev == args[3]:
+                            rep.violation("S5", key + ":polarity", where,
+                                          "the two branches of the test `%s` are both analysed assuming it is %s" % (args[2], args[3]))
+                        last_by_test[args[2]] = args[3]
+                else:
+                    if open_ is None or open_[1][:2] != args[:2]:
+                        rep.violation("S5", "cond-context:%s:%s@pop-line%d" % (unit, func, line), where,
+                                      "ablogAndPop does not match the preceding ablogAndPush")
+                    else:
+                        rep.ok("S5", "cond-context:%s:%s@%d" % (unit, func, open_[0]), nontrivial=True)
+                    open_ = None
+            if open_ is not None:
+                rep.violation("S5", "cond-context:%s:%s@unpopped" % (unit, func), "%s:%d (%s)" % (unit, open_[0], func),
+                              "ablogAndPush without a following ablogAndPop in this function")
+    rep.floor("known-condition context pushes", npush, 12)
+
+
 def digest(f):
-    return {"s1": s1_digest(f)}
+    return {"s1": s1_digest(f), "s45": s45_digest(f)}
 
 
 def run(tier, only=None):
@@ -273,6 +393,7 @@ def run(tier, only=None):
     dig = common.map_units(units, digest, all_trees=True)
     rep.analysed_count("translation units", len(units))
     s1(rep, dig)
+    s45(rep, dig)
     f = common.extract("axlcomp.c", all_cfg=True)
     s2(rep, f)
     s3(rep, f)
